@@ -39,20 +39,12 @@ func init() {
 
 func init() {
 	register(&PropSpec{ID: "TMPARMS", Explanation: "tmp", Run: func(r *Report) {
-		ruleCommitOrder(r, true, true)
-		ruleEmitOnce(r)
-		ruleDirty(r)
-		ruleEmitFields(r)
-		ruleQueryPaths(r)
-		ruleEffectsBelowCommit(r)
-		ruleIsolation(r)
-		ruleRelease(r)
-		ruleReadersIgnoreBuffers(r)
-		ruleGrow(r)
-		ruleCommitUpdates(r)
-		ruleRowDelete(r)
-		ruleRegister(r)
-		ruleBackfill(r)
-		ruleReplayOrder(r)
+		ruleFilterOps(r)
+		rulePresence(r)
+		ruleCursor(r)
+		ruleGuardedReads(r)
+		ruleSortCmp(r)
+		ruleSortScan(r)
+		ruleExpire(r)
 	}})
 }
